@@ -93,6 +93,29 @@ func serixLeg(s *simrt.Sim, reencode bool) {
 	if !ok || n != len(b) {
 		s.Fail("serix-roundtrip", "Decode-rejects-valid:"+e.name, "Decode(validate=%v) of a valid %s encoding returned n=%d ok=%v (len %d)", validate, e.name, n, ok, len(b))
 	}
+	if reencode && s.Choose(3) == 2 {
+		// a stored image of a value that violates one of its length bounds (written by a non-validating encoder): the
+		// validating decoder must reject it, or it must re-encode to itself
+		v := gen(s, e.n, 0)
+		conform(e.n, v)
+		if what := violate(s, e.n, v); what != "" {
+			obj := e.goValue(v)
+			var vb []byte
+			var verr error
+			if panicked, _ := hx.Try(func() { vb, verr = encodeReal(s, obj, false) }); !panicked && verr == nil {
+				s.Fault("rule-violating-image")
+				var n int
+				var ok bool
+				if panicked, _ := hx.Try(func() { n, ok = decode(vb)() }); panicked {
+					s.Probe("decode-panicked(see C02)")
+				} else if ok {
+					checkReencode(s, e, "rule-violation:"+what, "image of a value violating "+what, vb, n, dst, vb, nil, "rule-violation")
+				} else {
+					s.Probe("rule-violating-image-rejected")
+				}
+			}
+		}
+	}
 	forEachFault(s, fr.class, b, ref.marks, fr.huge, func(in []byte, kind, desc string) {
 		if reencode {
 			var n int
@@ -706,6 +729,11 @@ var jsonReplacements = []struct {
 	{"number-fraction", func() any { return 1.5 }},
 	{"number-huge", func() any { return 1e40 }},
 	{"numstring-huge", func() any { return "99999999999999999999999999" }},
+	{"string-1char-digit", func() any { return "7" }},
+	{"string-1char", func() any { return "x" }},
+	{"string-empty", func() any { return "" }},
+	{"hexprefix-only", func() any { return "0x" }},
+	{"hexstring-odd", func() any { return "0x1" }},
 }
 
 func jsonTypeName(v any) string {
@@ -906,4 +934,71 @@ func faultJSONBody(s *simrt.Sim) {
 		}
 	}
 	fr.done()
+}
+
+// violate breaks one length bound of the value in place (a collection, string or byte slice below its minimum or above
+// its maximum) and says which; "" if the type has no bound.
+func violate(s *simrt.Sim, n *node, v *val) string {
+	type cand struct {
+		n    *node
+		v    *val
+		over bool
+	}
+	var cands []cand
+	var walk func(n *node, v *val)
+	walk = func(n *node, v *val) {
+		if v == nil || v.nilp {
+			return
+		}
+		switch n.kind {
+		case kStruct:
+			for i, fd := range n.fields {
+				if i < len(v.kids) {
+					walk(fd.n, v.kids[i])
+				}
+			}
+		case kPtr:
+			walk(n.elem, v)
+		case kIface:
+			if len(v.kids) > 0 && v.alt < len(n.impls) {
+				walk(n.impls[v.alt], v.kids[0])
+			}
+		case kSlice, kMap, kString, kBytes:
+			if n.min >= 1 {
+				cands = append(cands, cand{n, v, false})
+			}
+			if n.max > 0 {
+				cands = append(cands, cand{n, v, true})
+			}
+			if n.kind == kSlice {
+				for _, k := range v.kids {
+					walk(n.elem, k)
+				}
+			}
+		}
+	}
+	walk(n, v)
+	if len(cands) == 0 {
+		return ""
+	}
+	c := cands[s.Choose(len(cands))]
+	switch {
+	case !c.over && (c.n.kind == kString || c.n.kind == kBytes):
+		c.v.b = []byte{}
+		return c.n.kind.String() + "-below-min"
+	case !c.over:
+		c.v.kids = nil
+		return c.n.kind.String() + "-below-min"
+	case c.n.kind == kString || c.n.kind == kBytes:
+		for len(c.v.b) <= c.n.max {
+			c.v.b = append(c.v.b, 'x')
+		}
+		return c.n.kind.String() + "-above-max"
+	case c.n.kind == kSlice && len(c.v.kids) > 0:
+		for len(c.v.kids) <= c.n.max {
+			c.v.kids = append(c.v.kids, c.v.kids[len(c.v.kids)-1].clone())
+		}
+		return "slice-above-max"
+	}
+	return ""
 }
